@@ -92,6 +92,10 @@ private:
 	// set to true when shutting down
 	bool m_close;
 
+	// true from the moment the connections are closed until the next client is
+	// accepted. Completions that still arrive belong to the old connections
+	bool m_accepting = true;
+
 	// true while the server connection is being established (name lookup and
 	// connect). Requests arriving meanwhile wait in m_server_out_buffer
 	bool m_connecting = false;
